@@ -329,6 +329,11 @@ def run_check(modname, tier, seed, jobs=None, replay=None):
     return 1 if new_keys else 0
 
 
+import re as _re
+
+_ADDR = _re.compile(r" at 0x[0-9a-fA-F]+")  # object addresses in messages are not part of an observation
+
+
 def _replay(mod, path):
     with open(path) as f:
         rec = json.load(f)
@@ -340,7 +345,7 @@ def _replay(mod, path):
     obs = []
     for _ in range(2):
         res = mod.run(case)
-        obs.append(sorted((v["key"], v["what"]) for v in res.get("viols") or ()))
+        obs.append(sorted((v["key"], _ADDR.sub(" at 0x?", v["what"])) for v in res.get("viols") or ()))
     if obs[0] != obs[1]:
         print("REPLAY-NONDETERMINISTIC: two runs of the same case differ:\n %r\n %r" % (obs[0], obs[1]))
         return 2
